@@ -58,13 +58,19 @@ def main():
         st = steps[k]
         try:
             if st["via"] == "single":
-                fname = f"in_{st['c']}_{k}.pdb"
+                fname = st.get("fname") or f"in_{st['c']}_{k}.pdb"
                 if st.get("mode") == "stream":
                     mol = prun.single(fname, optargs=tuple(st["o"]) + ("-q",), stream=io.StringIO(spec["inputs"][st["c"]]), write_pka=True)
                 else:
                     open(fname, "w").write(spec["inputs"][st["c"]])
+                    if st.get("fname"):
+                        # one path reused for successive contents, time stamp preserved (cp -p, rsync -t)
+                        os.utime(fname, (1700000000, 1700000000))
+                        for f in os.listdir("."):
+                            if f.startswith(fname[:-4]) and f.endswith(".pka"):
+                                os.unlink(f)
                     mol = prun.single(fname, optargs=tuple(st["o"]) + ("-q",), write_pka=True)
-                pk = [f for f in os.listdir(".") if f.startswith(f"in_{st['c']}_{k}") and f.endswith(".pka")]
+                pk = [f for f in os.listdir(".") if f.startswith(fname[:-4]) and f.endswith(".pka")]
                 text = open(pk[0]).read() if pk else None
                 out.append({"key": st["c"] + " " + " ".join(st["o"]), "dig": digest_mol(mol, text)})
                 k += 1
